@@ -29,6 +29,7 @@ type logbuf struct {
 	b    *pclog.ProcessLogBuffer
 	obs  map[string]*obs
 	subd map[string]bool
+	held map[string][]string // answers of range requests kept by their callers
 }
 
 func init() { Register("logbuf", func() Component { return &logbuf{} }) }
@@ -45,6 +46,7 @@ func (c *logbuf) Exec(op string) string {
 			c.b = pclog.NewLogBuffer(n)
 			c.obs = map[string]*obs{}
 			c.subd = map[string]bool{}
+			c.held = map[string][]string{}
 			return "ok"
 		case len(w) == 2 && w[0] == "w":
 			m, ok := UnHex(w[1])
@@ -60,6 +62,22 @@ func (c *logbuf) Exec(op string) string {
 				return "bad-op"
 			}
 			return HexList(c.b.GetLogRange(o, l))
+		case len(w) == 4 && w[0] == "hold":
+			// a caller keeps the answer of a range request (as the REST handler does while it encodes it)
+			o, e1 := strconv.Atoi(w[2])
+			l, e2 := strconv.Atoi(w[3])
+			if e1 != nil || e2 != nil {
+				return "bad-op"
+			}
+			c.held[w[1]] = c.b.GetLogRange(o, l)
+			return HexList(c.held[w[1]])
+		case len(w) == 2 && w[0] == "held":
+			// ... and reads it later
+			h, ok := c.held[w[1]]
+			if !ok {
+				return "none"
+			}
+			return HexList(h)
 		case len(w) == 1 && w[0] == "len":
 			return Itoa(c.b.GetLogLength())
 		case len(w) == 3 && w[0] == "sub":
@@ -161,5 +179,24 @@ func (c *logbuf) Gen(r *rand.Rand, tier string, emit func(string)) {
 		for _, id := range ids {
 			emit("got " + Hex(id))
 		}
+	}
+	// an answer that is kept while the process goes on writing across several trims
+	for k := 0; k < 4; k++ {
+		size := []int{0, 5, 50}[r.Intn(3)]
+		emit(fmt.Sprintf("new %d", size))
+		for i := 0; i < size+150; i++ {
+			wr()
+		}
+		emit(fmt.Sprintf("hold h1 %d %d", 20+r.Intn(size+100), r.Intn(30)))
+		for i := 0; i < 130; i++ {
+			wr()
+		}
+		emit(fmt.Sprintf("hold h2 %d 0", 3+r.Intn(100)))
+		emit("held h1")
+		for i := 0; i < 250; i++ {
+			wr()
+		}
+		emit("held h1")
+		emit("held h2")
 	}
 }
